@@ -247,7 +247,9 @@ func registerVoucherKinds(c *core.Ctx) {
 		}
 		var sb strings.Builder
 		sb.WriteString("ok hdr=" + step(func() error { return v.VerifyHeader(hmac.New(sha256.New, secret), hmac.New(sha512.New384, secret)) }))
-		sb.WriteString(" mfg=" + step(func() error { return v.VerifyManufacturerKey(protocol.Hash{Algorithm: protocol.HashAlg(kalg), Value: kval}) }))
+		sb.WriteString(" mfg=" + step(func() error {
+			return v.VerifyManufacturerKey(protocol.Hash{Algorithm: protocol.HashAlg(kalg), Value: kval})
+		}))
 		sb.WriteString(" cch=" + step(func() error { return v.VerifyCertChainHash() }))
 		sb.WriteString(" entries=" + step(func() error { return v.VerifyEntries() }))
 		owner := "err"
